@@ -76,7 +76,7 @@ extern size_t vh_mmap_live_bytes, vh_mmap_peak;
 extern long vh_mmap_capped;
 /* fault schedule: the k-th (1-based) seam request (malloc/realloc/mmap/munmap,
    counted together while armed) fails.  0 = none. */
-extern long vh_fail_at[2];
+extern long vh_fail_at[3];
 extern long vh_req_count;            /* requests seen while counting */
 extern volatile int vh_seam_armed;            /* count/fail/ledger only while set */
 extern char vh_req_log[256];         /* kinds of requests: m r f M U */
